@@ -114,6 +114,32 @@ func TestVerifOutputBuffers(t *testing.T) {
 					}
 				}
 			}
+			// the public key object of the pair (and the one Public() hands out) is
+			// loaded with ANOTHER key through its own decoder: the private key must
+			// still decapsulate the honest ciphertext to the encapsulated secret
+			{
+				pkO, _ := s.DeriveKeyPair(r.Bytes(s.SeedSize()))
+				other, _ := pkO.MarshalBinary()
+				for vi, target := range []any{pk, sk.Public()} {
+					done := false
+					if pn := lib.Try("reload-public-key:"+name, other, func() { done = reloadKeyObject(target, other) }); pn != nil || !done {
+						lib.Count("outbuf:no-own-decoder")
+						continue
+					}
+					lib.Count("outbuf:public-key-object-reloaded")
+					got, derr := s.Decapsulate(sk, ct0)
+					now, _ := sk.MarshalBinary()
+					if derr != nil || !lib.Eq(got, ss0) || !lib.Eq(now, skb) {
+						d := lib.D("seed", seed, "which", []string{"public key returned by DeriveKeyPair", "public key returned by Public()"}[vi],
+							"decapsulation_ok", derr == nil && lib.Eq(got, ss0), "private_key_encoding_changed", !lib.Eq(now, skb))
+						d["scheme"] = name
+						lib.Violation("C01:roundtrip-after-reloading-the-public-key-object:"+name, mon, d)
+						break
+					}
+				}
+				// restore for the Pack checks below
+				pk, sk = s.DeriveKeyPair(seed)
+			}
 			for _, kp := range []struct {
 				obj  any
 				want []byte
@@ -137,4 +163,23 @@ func TestVerifOutputBuffers(t *testing.T) {
 			}
 		}
 	})
+}
+
+// reloadKeyObject loads enc into obj through obj's own decoder
+// (UnmarshalBinary or Unpack taking a byte slice); false if there is none or
+// it refuses.
+func reloadKeyObject(obj any, enc []byte) bool {
+	v := reflect.ValueOf(obj)
+	for _, mname := range []string{"UnmarshalBinary", "Unpack"} {
+		m := v.MethodByName(mname)
+		if !m.IsValid() || m.Type().NumIn() != 1 || m.Type().In(0) != reflect.TypeOf([]byte(nil)) {
+			continue
+		}
+		out := m.Call([]reflect.Value{reflect.ValueOf(lib.Clone(enc))})
+		if len(out) == 1 && !out[0].IsNil() {
+			return false
+		}
+		return true
+	}
+	return false
 }
